@@ -5,7 +5,7 @@ i=$1; p=$(echo $i | cut -c1-3)
 rm -rf /tmp/sv-$i && mkdir -p /tmp/sv-$i && cp -r /repo /tmp/sv-$i/repo && git -C /tmp/sv-$i/repo apply /tmp/seed-$i/_out/patch.diff || { echo APPLYFAIL; exit 1; }
 h=$(python3 -c "import hashlib;print(hashlib.md5('/tmp/sv-$i/repo'.encode()).hexdigest()[:8])")
 cd /verif; rm -f replays/$p-quick-1.$h.*
-VERIF_REPO=/tmp/sv-$i/repo flock /verif/.build/sweep.lock ./check $p | grep -v KNOWN | tail -1
+VERIF_REPO=/tmp/sv-$i/repo flock /verif/.build/sweep-$p.lock ./check $p | grep -v KNOWN | tail -1
 grep -h "^# class" replays/$p-quick-1.$h.case 2>/dev/null | cut -c1-240 | head -3
 grep -v "^warning\|^Hint\|apply\]\|^Note\|^$\|^⚠\|^  \|^trace" replays/$p-quick-1.$h.broken.txt 2>/dev/null | head -12
 rm -rf /tmp/sv-$i
